@@ -138,9 +138,13 @@ func h08c(P, L, N int) {
 				matchesSome = true
 			}
 		}
+		_, reported := unmatched[vModelJoin(p, "/")]
 		if !matchesSome {
-			_, reported := unmatched[vModelJoin(p, "/")]
 			vAssert(reported, "a pattern that matches no name is reported as unmatched")
+		} else {
+			// the report aborts the run: a pattern that does match must not be in it, even when every name it
+			// matches is also matched by another pattern
+			vAssert(!reported, "a pattern that matches some name is not reported as unmatched")
 		}
 	}
 }
